@@ -564,7 +564,7 @@ class Ops:
         if k == 2:
             if nonstring_keys(it, cont):
                 item = it.split_kind(item)
-            x = it.refine(item.t)
+            x = simp(it.refine(item.t))
             if ctor(it.refine(x)) in ('StrV', 'ObjV'):
                 self.world.lazy_instantiate(it, c, vals.ks(it.refine(x)))
             if it.mode != 'spec':
@@ -613,7 +613,7 @@ class Ops:
                 return self.world.calls.enum_getitem(it, obj, idx)
             if nonstring_keys(it, obj):
                 idx = it.split_kind(idx)
-            i = it.refine(idx.t)
+            i = simp(it.refine(idx.t))
             if ctor(it.refine(i)) in ('StrV', 'ObjV'):
                 self.world.lazy_instantiate(it, c, vals.ks(it.refine(i)))
             self.outcome(it, [(z3.Not(_hashable(i)), 'TypeError'),
@@ -687,6 +687,7 @@ class Ops:
             if obj.ty == 'ImmutableDict':
                 it.raise_('TypeError')
             self.outcome(it, [(z3.Not(_hashable(i)), 'TypeError'), (_hashable(i), None)], 'setitem key')
+            i = simp(it.refine(i))
             if it.feasible(z3.Not(vals.is_key(i))):
                 raise Unsupported('dict key that is neither a string nor an object (A4)')
             it.assume_axiom(vals.key_axiom(i))
@@ -777,7 +778,7 @@ class Ops:
 def nonstring_keys(it, cont):
     """the container is declared (static type `dict[obj]:T`, `set[obj]`, `dict[int]:T`) or visibly built with keys
     that are not strings: then the kind of a looked-up key matters and is split; otherwise keys are strings (A4)"""
-    if cont.ty and ('[obj]' in cont.ty.split(':', 1)[0] or '[int]' in cont.ty.split(':', 1)[0]):
+    if cont.ty and any(t in cont.ty.split(':', 1)[0] for t in ('[obj]', '[int]', '[pair]')):
         return True
     c = it.refine(cont.t)
     if ctor(c) == 'DictV':
